@@ -26,6 +26,9 @@ def base_frame(variant=0, n_rep=4):
     X = pd.DataFrame({"q": pd.Series(q, dtype=float), "c": pd.Series(c, dtype=object), "o": pd.Series(o, dtype=object), "other": list(range(3 * n_rep))})
     if variant == 2:
         X.index = [f"r{i}" for i in range(len(X))]
+    if variant == 3:  # rare categories (default group) and missing values: a re-fit would regroup them
+        X["c"] = pd.Series(["a"] * 5 + ["b"] * 5 + ["r1", "r2"], dtype=object)
+        X["q"] = pd.Series([1.0, 1, 1, 1, 2, 2, 2, 2, 3, 3, np.nan, np.nan], dtype=float)
     pat = [0, 0, 0, 1, 0, 0, 1, 1, 0, 1, 1, 1] if n_rep == 4 else None
     return X, pat
 
@@ -40,7 +43,31 @@ def target(cls, X, pat):
     return pd.Series(y, index=X.index)
 
 
+NO_ORDINAL = {"on": False}
+
+
 def make(cls, **over):
+    if NO_ORDINAL["on"] and cls not in ("QuantitativeDiscretizer",):
+        return make_no_ordinal(cls, **over)
+    return make_all(cls, **over)
+
+
+def make_no_ordinal(cls, **over):
+    from AutoCarver import BinaryCarver, ContinuousCarver, MulticlassCarver
+    from AutoCarver.discretizers import Discretizer, QualitativeDiscretizer
+
+    if cls in ("BinaryCarver", "ContinuousCarver", "MulticlassCarver"):
+        kw = dict(min_freq=0.2, quantitative_features=["q"], qualitative_features=["c"], max_n_mod=3, copy=True)
+        if cls != "ContinuousCarver":
+            kw["sort_by"] = "tschuprowt"
+        kw.update(over)
+        return {"BinaryCarver": BinaryCarver, "ContinuousCarver": ContinuousCarver, "MulticlassCarver": MulticlassCarver}[cls](**kw)
+    if cls == "Discretizer":
+        return Discretizer(quantitative_features=["q"], qualitative_features=["c"], min_freq=0.2, copy=True)
+    return QualitativeDiscretizer(qualitative_features=["c"], min_freq=0.2, copy=True)
+
+
+def make_all(cls, **over):
     from AutoCarver import BinaryCarver, ContinuousCarver, MulticlassCarver
     from AutoCarver.discretizers import Discretizer, QualitativeDiscretizer, QuantitativeDiscretizer
 
@@ -221,6 +248,14 @@ def call(obj, action):
 
 
 def run_case(case):
+    NO_ORDINAL["on"] = bool(case.get("no_ordinal"))
+    try:
+        return _run_case(case)
+    finally:
+        NO_ORDINAL["on"] = False
+
+
+def _run_case(case):
     cls, fd, hist, variant = case["cls"], case["fd"], case["history"], case.get("variant", 0)
     X, pat = base_frame(variant)
     y = target(cls, X, pat)
@@ -276,12 +311,15 @@ def replay(case):
 
 def run(tier, seed, rep):
     cases = []
-    variants = [seed % 3] if tier == "quick" else [0, 1, 2]
+    variants = [seed % 3, 3] if tier == "quick" else [0, 1, 2, 3]
     for cls in CLASSES:
         for fd in faults(cls, tier):
             for hist in ("fresh", "fitted"):
                 for v in variants:
                     cases.append({"cls": cls, "fd": fd, "history": hist, "variant": v})
+                    # the same without any ordinal feature (value-level / refit / type faults only)
+                    if fd["fault"] in ("refit", "y_nan", "y_index", "X_type", "y_classes", "transform_X_type") and "feature" not in fd:
+                        cases.append({"cls": cls, "fd": fd, "history": hist, "variant": v, "no_ordinal": True})
     rep.rule = (
         "E2 fault enumeration: classes {3 carvers, Discretizer, Qualitative-, QuantitativeDiscretizer} x fault classes of the statement "
         "(target with a missing value at each row position, wrong class count, target indexed differently incl. different length, non-"
